@@ -11,18 +11,17 @@ Section ResourceLevel.
   Variable parse : string -> option re.
   Variable enc : node -> string.
   Variable nonstr : string -> bool.
-  Variable cluster_scoped : gvk -> bool.
   Variable lsel : string -> list (string * string) -> option bool.
   Variable fuel : nat.
 
-  Notation apply_node := (apply_target_to_node parse enc nonstr cluster_scoped lsel fuel).
-  Notation apply_repl := (apply_replacement parse enc nonstr cluster_scoped lsel fuel).
+  Notation apply_node := (apply_target_to_node parse enc nonstr lsel fuel).
+  Notation apply_repl := (apply_replacement parse enc nonstr lsel fuel).
 
   (* the target selector wants this resource: label/annotation selectors accept it, one of its ids
      (current or previous) is selected, and no id is rejected *)
   Definition wants (ts : target_selector) (sel : selector) (n : node) : Prop :=
     select_by_anno_label lsel n sel (ts_reject ts) = Ok true /\
-    exists ids, make_res_ids n = Ok ids /\ target_selected cluster_scoped sel (ts_reject ts) ids = true.
+    exists ids, make_res_ids n = Ok ids /\ target_selected sel (ts_reject ts) ids = true.
 
   Lemma apply_node_untouched value ts sel n n' :
     apply_node value ts sel n = Ok n' -> ~ wants ts sel n -> n' = n.
@@ -31,7 +30,7 @@ Section ResourceLevel.
     destruct (make_res_ids n) as [ids| | |] eqn:I; cbn in H; try discriminate.
     destruct (select_by_anno_label lsel n sel (ts_reject ts)) as [ok| | |] eqn:S; cbn in H; try discriminate.
     destruct ok; cbn in H; [|inv H; auto].
-    destruct (target_selected cluster_scoped sel (ts_reject ts) ids) eqn:T; [|inv H; auto].
+    destruct (target_selected sel (ts_reject ts) ids) eqn:T; [|inv H; auto].
     exfalso. apply W. split; auto. eauto.
   Qed.
 
@@ -55,7 +54,7 @@ Section ResourceLevel.
 
   (* rejected by id: some id of the resource is selected by a (non-empty) reject entry *)
   Lemma rejected_not_wanted ts sel n ids :
-    make_res_ids n = Ok ids -> contains_reject_id cluster_scoped (ts_reject ts) ids = true -> ~ wants ts sel n.
+    make_res_ids n = Ok ids -> contains_reject_id (ts_reject ts) ids = true -> ~ wants ts sel n.
   Proof.
     intros I R (_ & ids' & I' & T). rewrite I in I'. inv I'.
     unfold target_selected in T. rewrite R in T. rewrite andb_false_r in T. discriminate.
